@@ -1,2 +1,3 @@
 import Proofs.C01
 import Proofs.C05
+import Proofs.C07
